@@ -344,8 +344,8 @@ wall-clock), the whole quick pass about 10 min on 16 cores; the last full thorou
 twenty properties (2026-10-02 20:18-20:49Z) took 31 min and reported no violation on the unchanged
 tree; the twelve checks changed afterwards (debug-logging rotation, round 11) were re-run at the
 thorough tier (21:44-22:05Z, no violation); the committed `evidence/*.json` are from the quick pass
-run after the last change (22:05-22:14Z). The last sweep of `tools/seed_matrix.py` over all {n} seeded changes (own property's
-check only, 18:25-20:09Z, the 220 changes of rounds 1-10) had every one reported with a failing input; the ten of round 11 were swept on their own afterwards. `coqchk -o` over the twenty
+run after the last change (22:05-22:14Z). The last sweep of `tools/seed_matrix.py` over the 220 seeded changes of rounds 1-10 (own property's
+check only, 18:25-20:09Z) had every one reported with a failing input; the ten of round 11 were swept on their own afterwards. `coqchk -o` over the twenty
 `Props` files was re-run after the last Coq change (20:59Z, 5m44s): no axioms, nothing relying on
 type-in-type, unsafe fixpoints or assumed positivity (`evidence/coqchk.txt`).
 """
